@@ -9,12 +9,12 @@ Local Open Scope Z_scope.
 (* ---- induction principle for the nested inductive [entry] ---- *)
 Fixpoint entry_ind' (P : entry -> Prop)
   (Hd : forall d, P (EDir d))
-  (Hf : forall d zn decl act crc op b nested, Forall P nested -> P (EFile d zn decl act crc op b nested))
+  (Hf : forall d zn decl act crc op b rmok nested, Forall P nested -> P (EFile d zn decl act crc op b rmok nested))
   (e : entry) {struct e} : P e :=
   match e with
   | EDir d => Hd d
-  | EFile d zn decl act crc op b nested =>
-      Hf d zn decl act crc op b nested
+  | EFile d zn decl act crc op b rmok nested =>
+      Hf d zn decl act crc op b rmok nested
          ((fix go (l : list entry) : Forall P l :=
              match l with
              | [] => Forall_nil P
@@ -63,8 +63,8 @@ Proof. unfold count0; destruct (recursive lim && zn); lia. Qed.
 Lemma count01 lim zn : count0 lim zn + count1 lim zn = 1.
 Proof. unfold count0, count1; destruct (recursive lim && zn); lia. Qed.
 
-Lemma wfb_file d zn decl act crc op b nested :
-  wfb (EFile d zn decl act crc op b nested) = true ->
+Lemma wfb_file d zn decl act crc op b rmok nested :
+  wfb (EFile d zn decl act crc op b rmok nested) = true ->
   0 <= d /\ 0 <= decl < 2 ^ 64 /\ 0 <= act /\ Forall (fun e => wfb e = true) nested.
 Proof.
   simpl. rewrite !andb_true_iff. intros [[[[H1 H2] H3] H4] H5].
@@ -220,9 +220,9 @@ Section Entries.
   Variable lim : limits.
 
   (* ---- total size and file count ---- *)
-  Lemma file_eff_tot_cnt cur base d zn decl act crc op b sub :
+  Lemma file_eff_tot_cnt cur base d zn decl act crc op b rmok sub :
     (forall c b', Forall (tot_ok) (sub c b') /\ Forall (cnt_ok) (sub c b')) ->
-    tot_ok (file_eff lim cur base d zn decl act crc op b sub) /\ cnt_ok (file_eff lim cur base d zn decl act crc op b sub).
+    tot_ok (file_eff lim cur base d zn decl act crc op b rmok sub) /\ cnt_ok (file_eff lim cur base d zn decl act crc op b rmok sub).
   Proof.
     intros Hsub. unfold tot_ok, cnt_ok, file_eff. cbv zeta.
     destruct (too_deep lim (entry_depth lim cur d)); [split; simpl; discriminate|].
@@ -236,6 +236,7 @@ Section Entries.
     destruct (recursive lim && zn && negb (is_plain b)).
     - set (r := open_archive lim _ _ _ _ _).
       destruct (r_kind r) eqn:K; [split; simpl; discriminate|].
+      destruct rmok; [|split; simpl; discriminate].
       destruct (open_archive_cases lim (entry_depth lim cur d + 1) (copied (i64 decl) act) (is_good b) [NDir (base + d)]
                   (sub (entry_depth lim cur d + 1) (base + d + 1))) as [[E _]|[[E _]|[E _]]];
         fold r in E; try (rewrite E in K; discriminate).
@@ -263,7 +264,7 @@ Section Entries.
 
   Lemma entry_tot_cnt e : forall cur base, tot_ok (entry_eff lim cur base e) /\ cnt_ok (entry_eff lim cur base e).
   Proof.
-    induction e as [d|d zn decl act crc op b nested IH] using entry_ind'; intros cur base; simpl.
+    induction e as [d|d zn decl act crc op b rmok nested IH] using entry_ind'; intros cur base; simpl.
     - apply dir_eff_tot_cnt.
     - apply file_eff_tot_cnt. intros c b'. split; apply Forall_map_intro;
         (eapply Forall_impl; [|exact IH]); intros e He; apply He.
@@ -289,10 +290,10 @@ Section Entries.
     - apply run_nodes_Forall; [|exact Hd]. eapply Forall_impl; [|exact He]. intros f [_ H]; exact H.
   Qed.
 
-  Lemma file_eff_size cur base d zn decl act crc op b sub :
+  Lemma file_eff_size cur base d zn decl act crc op b rmok sub :
     0 <= max_file lim -> 0 <= decl < 2 ^ 64 -> 0 <= act ->
     (forall c b', Forall size_ok (sub c b')) ->
-    size_ok (file_eff lim cur base d zn decl act crc op b sub).
+    size_ok (file_eff lim cur base d zn decl act crc op b rmok sub).
   Proof.
     intros Hm Hdecl Hact Hsub. unfold size_ok, file_eff. cbv zeta.
     assert (Hz : wr_ok (mkWr decl 0)) by (unfold wr_ok; simpl; lia).
@@ -312,13 +313,13 @@ Section Entries.
     destruct (recursive lim && zn && negb (is_plain b)).
     - destruct (open_archive_size_ok (entry_depth lim cur d + 1) (copied (i64 decl) act) (is_good b) [NDir (base + d)]
                   (sub (entry_depth lim cur d + 1) (base + d + 1)) (Hsub _ _) ltac:(repeat constructor)) as [W N].
-      destruct (r_kind _); simpl; (split; [constructor; assumption|]); apply Forall_app; split; auto.
+      destruct (r_kind _); [|destruct rmok]; simpl; (split; [constructor; assumption|]); apply Forall_app; split; auto.
     - simpl. split; [auto|apply Forall_app; auto].
   Qed.
 
   Lemma entry_size e : 0 <= max_file lim -> wfb e = true -> forall cur base, size_ok (entry_eff lim cur base e).
   Proof.
-    intros Hm. induction e as [d|d zn decl act crc op b nested IH] using entry_ind'; intros Hwf cur base; simpl.
+    intros Hm. induction e as [d|d zn decl act crc op b rmok nested IH] using entry_ind'; intros Hwf cur base; simpl.
     - unfold size_ok, dir_eff. destruct (too_deep lim _); simpl; repeat constructor.
     - apply wfb_file in Hwf. destruct Hwf as (Hd & Hdecl & Hact & Hn).
       apply file_eff_size; auto. intros c b'. apply Forall_map_intro.
@@ -334,10 +335,10 @@ Section Entries.
   Lemma entry_depth_enabled cur d : 0 <= max_depth lim -> entry_depth lim cur d = d + cur.
   Proof. unfold entry_depth. intros H. apply Z.leb_le in H. now rewrite H. Qed.
 
-  Lemma file_eff_depth cur d zn decl act crc op b sub :
+  Lemma file_eff_depth cur d zn decl act crc op b rmok sub :
     0 <= max_depth lim ->
     (forall c, Forall depth_ok (sub c c)) ->
-    depth_ok (file_eff lim cur cur d zn decl act crc op b sub).
+    depth_ok (file_eff lim cur cur d zn decl act crc op b rmok sub).
   Proof.
     intros Hm Hsub. unfold depth_ok, file_eff. cbv zeta. rewrite (entry_depth_enabled cur d Hm).
     destruct (too_deep lim (d + cur)) eqn:Td; [simpl; constructor|].
@@ -356,12 +357,12 @@ Section Entries.
         as [[E _]|[[E _]|[E _]]]; rewrite E; simpl; auto.
       apply run_nodes_Forall; [|repeat constructor; simpl; lia].
       replace (cur + d + 1) with (d + cur + 1) by lia. apply Hsub. }
-    destruct (r_kind _); simpl; apply Forall_app; split; auto.
+    destruct (r_kind _); [|destruct rmok]; simpl; apply Forall_app; split; auto.
   Qed.
 
   Lemma entry_depth_ok e : 0 <= max_depth lim -> forall cur, depth_ok (entry_eff lim cur cur e).
   Proof.
-    intros Hm. induction e as [d|d zn decl act crc op b nested IH] using entry_ind'; intros cur; simpl.
+    intros Hm. induction e as [d|d zn decl act crc op b rmok nested IH] using entry_ind'; intros cur; simpl.
     - unfold depth_ok, dir_eff. rewrite (entry_depth_enabled cur d Hm).
       destruct (too_deep lim (d + cur)) eqn:Td; simpl; [constructor|].
       apply too_deep_false in Td; [|assumption]. repeat constructor. simpl. lia.
@@ -373,17 +374,17 @@ Section Entries.
   Fixpoint truthful (e : entry) : bool :=
     match e with
     | EDir _ => true
-    | EFile d zn decl act crc op b nested =>
+    | EFile d zn decl act crc op b rmok nested =>
         (decl =? act) && crc && op &&
         (if recursive lim && zn && negb (is_plain b) then is_good b && forallb truthful nested else true)
     end.
 
-  Lemma file_eff_truthful cur base d zn decl act crc op b sub :
+  Lemma file_eff_truthful cur base d zn decl act crc op b rmok sub :
     0 <= decl < 2 ^ 64 -> 0 <= act ->
-    f_stop (file_eff lim cur base d zn decl act crc op b sub) = None ->
+    f_stop (file_eff lim cur base d zn decl act crc op b rmok sub) = None ->
     (decl =? act) && crc && op = true /\
     (recursive lim && zn && negb (is_plain b) = true ->
-       is_good b = true /\ Forall (fun f => f_stop f = None) (sub (entry_depth lim cur d + 1) (base + d + 1))).
+       is_good b = true /\ rmok = true /\ Forall (fun f => f_stop f = None) (sub (entry_depth lim cur d + 1) (base + d + 1))).
   Proof.
     intros Hdecl Hact. unfold file_eff. cbv zeta.
     destruct (too_deep lim (entry_depth lim cur d)); [simpl; discriminate|].
@@ -396,20 +397,40 @@ Section Entries.
     assert (H1 : (decl =? act) && crc && true = true) by (rewrite Hcrc, Hda, Z.eqb_refl; reflexivity).
     destruct (recursive lim && zn && negb (is_plain b)); [|intros _; split; [exact H1|discriminate]].
     set (r := open_archive lim _ _ _ _ _).
-    destruct (r_kind r) eqn:K; [simpl; discriminate|]. intros _. split; [exact H1|]. intros _.
+    destruct (r_kind r) eqn:K; [simpl; discriminate|]. destruct rmok; [|simpl; discriminate]. intros _. split; [exact H1|]. intros _.
     destruct (open_archive_cases lim (entry_depth lim cur d + 1) (copied (i64 decl) act) (is_good b) [NDir (base + d)]
                 (sub (entry_depth lim cur d + 1) (base + d + 1))) as [[E _]|[[E _]|[E (_ & Hg & _)]]];
       fold r in E; try (rewrite E in K; discriminate).
-    split; [exact Hg|]. rewrite E in K. apply (run_ok_all lim _ _ _ _ _ K).
+    split; [exact Hg|]. split; [reflexivity|]. rewrite E in K. apply (run_ok_all lim _ _ _ _ _ K).
   Qed.
 
   Lemma entry_truthful e : wfb e = true -> forall cur base, f_stop (entry_eff lim cur base e) = None -> truthful e = true.
   Proof.
-    induction e as [d|d zn decl act crc op b nested IH] using entry_ind'; intros Hwf cur base H; simpl in H |- *; [reflexivity|].
+    induction e as [d|d zn decl act crc op b rmok nested IH] using entry_ind'; intros Hwf cur base H; simpl in H |- *; [reflexivity|].
     apply wfb_file in Hwf. destruct Hwf as (Hd & Hdecl & Hact & Hn).
-    destruct (file_eff_truthful _ _ _ _ _ _ _ _ _ _ Hdecl Hact H) as [H1 H2]. rewrite H1. simpl.
+    destruct (file_eff_truthful _ _ _ _ _ _ _ _ _ _ _ Hdecl Hact H) as [H1 H2]. rewrite H1. simpl.
     destruct (recursive lim && zn && negb (is_plain b)); [|reflexivity].
-    destruct (H2 eq_refl) as [Hg Hs]. rewrite Hg. simpl. apply forallb_forall. apply Forall_forall.
+    destruct (H2 eq_refl) as [Hg [Hrm Hs]]. rewrite Hg. simpl. apply forallb_forall. apply Forall_forall.
+    apply Forall_map_elim in Hs.
+    eapply Forall_impl2; [|exact IH|]. 2:{ eapply Forall_impl2; [|exact Hn|exact Hs]. intros e A B. exact (conj A B). }
+    intros e He [A B]. eapply He; eauto.
+  Qed.
+
+  (* ---- the removal of every nested archive that was unzipped succeeded ---- *)
+  Fixpoint removed (e : entry) : bool :=
+    match e with
+    | EDir _ => true
+    | EFile d zn decl act crc op b rmok nested =>
+        if recursive lim && zn && negb (is_plain b) then rmok && forallb removed nested else true
+    end.
+
+  Lemma entry_removed e : wfb e = true -> forall cur base, f_stop (entry_eff lim cur base e) = None -> removed e = true.
+  Proof.
+    induction e as [d|d zn decl act crc op b rmok nested IH] using entry_ind'; intros Hwf cur base H; simpl in H |- *; [reflexivity|].
+    apply wfb_file in Hwf. destruct Hwf as (Hd & Hdecl & Hact & Hn).
+    destruct (file_eff_truthful _ _ _ _ _ _ _ _ _ _ _ Hdecl Hact H) as [H1 H2].
+    destruct (recursive lim && zn && negb (is_plain b)); [|reflexivity].
+    destruct (H2 eq_refl) as [Hg [Hrm Hs]]. rewrite Hrm. simpl. apply forallb_forall. apply Forall_forall.
     apply Forall_map_elim in Hs.
     eapply Forall_impl2; [|exact IH|]. 2:{ eapply Forall_impl2; [|exact Hn|exact Hs]. intros e A B. exact (conj A B). }
     intros e He [A B]. eapply He; eauto.
@@ -422,16 +443,16 @@ Section Entries.
   Fixpoint clean (e : entry) : bool :=
     match e with
     | EDir _ => true
-    | EFile d zn decl act crc op b nested =>
+    | EFile d zn decl act crc op b rmok nested =>
         (decl =? act) && (act <? 2 ^ 63) && crc && op &&
-        (if recursive lim && zn && negb (is_plain b) then is_good b && forallb clean nested else true)
+        (if recursive lim && zn && negb (is_plain b) then is_good b && rmok && forallb clean nested else true)
     end.
 
-  Lemma file_eff_refusal cur base d zn decl act crc op b sub :
+  Lemma file_eff_refusal cur base d zn decl act crc op b rmok sub :
     (decl =? act) && (act <? 2 ^ 63) && crc && op = true ->
-    (recursive lim && zn && negb (is_plain b) = true -> is_good b = true /\ forall c b', Forall stop_tl (sub c b')) ->
+    (recursive lim && zn && negb (is_plain b) = true -> is_good b = true /\ rmok = true /\ forall c b', Forall stop_tl (sub c b')) ->
     0 <= decl < 2 ^ 64 -> 0 <= act ->
-    stop_tl (file_eff lim cur base d zn decl act crc op b sub).
+    stop_tl (file_eff lim cur base d zn decl act crc op b rmok sub).
   Proof.
     intros Ht Hsub Hdecl Hact. apply andb_true_iff in Ht. destruct Ht as [Ht Hop]. apply andb_true_iff in Ht.
     destruct Ht as [Ht Hcrc]. apply andb_true_iff in Ht. destruct Ht as [Ht Hsmall].
@@ -444,7 +465,7 @@ Section Entries.
     destruct (i64_cases decl Hdecl) as [[E L]|[E L]]; [|lia].
     rewrite E, Z.eqb_refl. simpl negb. cbv iota.
     destruct (recursive lim && zn && negb (is_plain b)); [|simpl; auto].
-    destruct (Hsub eq_refl) as [Hg Hs].
+    destruct (Hsub eq_refl) as [Hg [Hrm Hs]].
     set (r := open_archive lim _ _ _ _ _).
     assert (K : r_kind r = None \/ r_kind r = Some TooLarge).
     { subst r.
@@ -452,17 +473,17 @@ Section Entries.
                   (sub (entry_depth lim cur d + 1) (base + d + 1))) as [[E1 _]|[[E1 F]|[E1 _]]]; rewrite E1; simpl; auto.
       - congruence.
       - apply (run_kind lim (fun k => k = None \/ k = Some TooLarge)); auto. }
-    destruct K as [K|K]; rewrite K; simpl; auto.
+    destruct K as [K|K]; rewrite K; [rewrite Hrm|]; simpl; auto.
   Qed.
 
   Lemma entry_refusal e : wfb e = true -> clean e = true -> forall cur base, stop_tl (entry_eff lim cur base e).
   Proof.
-    induction e as [d|d zn decl act crc op b nested IH] using entry_ind'; intros Hwf Ht cur base; simpl in Ht |- *.
+    induction e as [d|d zn decl act crc op b rmok nested IH] using entry_ind'; intros Hwf Ht cur base; simpl in Ht |- *.
     - unfold stop_tl, dir_eff. destruct (too_deep lim _); simpl; auto.
     - apply wfb_file in Hwf. destruct Hwf as (Hd & Hdecl & Hact & Hn).
       apply andb_true_iff in Ht. destruct Ht as [Ht1 Ht2].
       apply file_eff_refusal; auto.
-      intros Hr. rewrite Hr in Ht2. apply andb_true_iff in Ht2. destruct Ht2 as [Hg Hf]. split; [exact Hg|].
+      intros Hr. rewrite Hr in Ht2. apply andb_true_iff in Ht2. destruct Ht2 as [Hg Hf]. apply andb_true_iff in Hg. destruct Hg as [Hg Hrm]. split; [exact Hg|]. split; [exact Hrm|].
       intros c b'. apply Forall_map_intro. rewrite forallb_forall in Hf. apply Forall_forall in Hf.
       eapply Forall_impl2; [|exact IH|]. 2:{ eapply Forall_impl2; [|exact Hn|exact Hf]. intros e A B. exact (conj A B). }
       intros e He [A B]. apply He; auto.
@@ -472,7 +493,7 @@ Section Entries.
   Fixpoint spec_nodes (base : Z) (e : entry) : list node :=
     match e with
     | EDir d => [NDir (base + d)]
-    | EFile d zn decl act crc op b nested =>
+    | EFile d zn decl act crc op b rmok nested =>
         parent_dir base d ++
         (if recursive lim && zn && negb (is_plain b)
          then NDir (base + d) :: flat_map (spec_nodes (base + d + 1)) nested
@@ -488,10 +509,10 @@ Section Entries.
   Lemma entry_complete e : wfb e = true -> forall cur base,
     f_stop (entry_eff lim cur base e) = None -> f_nodes (entry_eff lim cur base e) = spec_nodes base e.
   Proof.
-    induction e as [d|d zn decl act crc op b nested IH] using entry_ind'; intros Hwf cur base H; simpl in H |- *.
+    induction e as [d|d zn decl act crc op b rmok nested IH] using entry_ind'; intros Hwf cur base H; simpl in H |- *.
     - unfold dir_eff in *. destruct (too_deep lim _); simpl in *; [discriminate|reflexivity].
     - apply wfb_file in Hwf. destruct Hwf as (Hd & Hdecl & Hact & Hn).
-      destruct (file_eff_truthful _ _ _ _ _ _ _ _ _ _ Hdecl Hact H) as [H1 H2].
+      destruct (file_eff_truthful _ _ _ _ _ _ _ _ _ _ _ Hdecl Hact H) as [H1 H2].
       apply andb_true_iff in H1. destruct H1 as [H1 Hop]. apply andb_true_iff in H1. destruct H1 as [H1 Hcrc].
       apply Z.eqb_eq in H1. subst act.
       revert H. unfold file_eff. cbv zeta.
@@ -504,9 +525,9 @@ Section Entries.
       assert (Hc : copied (i64 decl) decl = decl).
       { unfold copied. rewrite Ht. destruct (Z.ltb_spec decl 0); lia. }
       destruct (recursive lim && zn && negb (is_plain b)) eqn:Hr.
-      + destruct (H2 eq_refl) as [Hg Hs].
+      + destruct (H2 eq_refl) as [Hg [Hrm Hs]].
         set (r := open_archive lim _ _ _ _ _).
-        destruct (r_kind r) eqn:K; [simpl; discriminate|]. intros _. simpl. f_equal.
+        destruct (r_kind r) eqn:K; [simpl; discriminate|]. destruct rmok; [|simpl; discriminate]. intros _. simpl. f_equal.
         destruct (open_archive_cases lim (entry_depth lim cur d + 1) (copied (i64 decl) decl) (is_good b) [NDir (base + d)]
                     (map (entry_eff lim (entry_depth lim cur d + 1) (base + d + 1)) nested)) as [[E _]|[[E _]|[E _]]];
           fold r in E; try (rewrite E in K; discriminate).
@@ -584,6 +605,14 @@ Section Top.
     eapply entry_truthful; eauto.
   Qed.
 
+  Lemma top_removed : forallb wfb es = true -> r_kind r = None -> forallb (removed lim) es = true.
+  Proof.
+    intros Hwf K. destruct (top_ok_is_run K) as [E _]. rewrite E in K.
+    destruct (run_ok_all lim _ _ _ _ _ K) as [Hs _]. apply Forall_map_elim in Hs.
+    rewrite forallb_forall in *. intros e He. rewrite Forall_forall in Hs.
+    eapply entry_removed; eauto.
+  Qed.
+
   Lemma top_complete : forallb wfb es = true -> r_kind r = None -> r_nodes r = flat_map (spec_nodes lim 0) es.
   Proof.
     intros Hwf K. destruct (top_ok_is_run K) as [E _]. rewrite E in *.
@@ -638,5 +667,5 @@ Lemma dirs_not_checked :
 Proof. vm_compute. repeat split; reflexivity. Qed.
 
 (* ---- the code before the repair (no end-of-stream check after the bounded copy) accepted lying headers ---- *)
-Definition lying_entry : entry := EFile 0 false 5 20 true true Plain [].
+Definition lying_entry : entry := EFile 0 false 5 20 true true Plain true [].
 
